@@ -35,6 +35,7 @@ def gen(tier, seed):
     yield from handbuilt()
     yield from handbuilt2()
     yield from handbuilt3()
+    yield from handbuilt3(70)
     yield from handbuilt4()
     yield from handbuilt5()
     rng = core.seeded_rng(seed, 'c01')
@@ -120,21 +121,21 @@ def handbuilt5():
             yield {'decls': [d.to_json() for d in decls], 'flags': 0, 'texts': [T(t1), T(t2)], 'style': 'plain', 'entry': ['buf', 'fp', 'file'][n % 3]}
 
 
-def handbuilt3():
-    """sections declared 12 levels deep (plain, multi and titled alternating), every level with its own defaults"""
+def handbuilt3(deep=12):
+    """sections declared 12 (and 70) levels deep (plain, multi and titled alternating), every level with its own defaults"""
     def level(k):
         leafs = [D('v%d' % k, 'int', default=k), D('l%d' % k, 'int', F_LIST, default=[k, k + 1]), D('t%d' % k, 'str', default='d%d' % k)]
-        if k == 12:
+        if k == deep:
             return leafs
         fl = [0, F_MULTI, F_MULTI | F_TITLE][k % 3]
         return leafs + [D('s%d' % k, 'sec', fl, sub=level(k + 1))]
     decls = level(1)
     def nest(k, inner):
-        if k == 12:
+        if k == deep:
             return inner
         ttl = 'n%d ' % k if k % 3 == 2 else ''
         return 's%d %s{ v%d = %d %s }' % (k, ttl, k + 1, 100 + k, nest(k + 1, inner))
-    for t1, t2 in ((nest(1, 'l12 += { 5 }'), nest(1, 't12 = again')), (nest(1, ''), 'v1 = 9'), ('v1 = 2', nest(1, 'v12 = 1'))):
+    for t1, t2 in ((nest(1, 'l%d += { 5 }' % deep), nest(1, 't%d = again' % deep)), (nest(1, ''), 'v1 = 9'), ('v1 = 2', nest(1, 'v%d = 1' % deep))):
         yield {'decls': [d.to_json() for d in decls], 'flags': 0, 'texts': [T(t1), T(t2)], 'style': 'plain'}
 
 
